@@ -677,4 +677,12 @@ def flush_validation(chk, results):
         else:
             got = det
         if got != pred:
+            # the engine iterates hash containers in insertion order; a detector whose result depends on the iteration order shows as a
+            # mismatch here. Decide natively: the same job in several processes (each has its own hash seed)
+            seen = {tuple(chk.native.run([['detect', detector, chk.native.file(text)]])[0]) for _ in range(10)}
+            if len(seen) > 1:
+                chk.violation('%s:nondeterministic' % detector, '%s returns different locations for the same file in different processes (%d different results in 10 runs), '
+                              'e.g. %r [%s]' % (detector, len(seen), sorted(seen)[:2], label),
+                              {'job': 'detect', 'detector': detector, 'source': text, 'observed': sorted(seen), 'repeat': 10})
+                continue
             chk.broken('%s [%s]: engine predicts starts %r, the real code returns %r on\n%s' % (detector, label, pred, got, text))
